@@ -71,10 +71,12 @@ func verOf(v []byte) (uint64, bool) {
 //
 // Two writers own disjoint key groups. Every batch keeps one of three
 // invariants that hold in every committed state:
-//   pair:    value(g/pa) and value(g/pb) carry the same version
-//   range:   exactly one key exists in [g/r/, g/r0), and its value carries the version in its name
-//            (batch = DeleteRange(g/r/, g/r0) + Put(g/r/<ver>))
-//   counter: counter g/ca == counter g/cb (batch = Merge(ca,d) + Merge(cb,d))
+//
+//	pair:    value(g/pa) and value(g/pb) carry the same version
+//	range:   exactly one key exists in [g/r/, g/r0), and its value carries the version in its name
+//	         (batch = DeleteRange(g/r/, g/r0) + Put(g/r/<ver>))
+//	counter: counter g/ca == counter g/cb (batch = Merge(ca,d) + Merge(cb,d))
+//
 // Readers take one iterator (with and without WithSnap) and evaluate the
 // invariants inside it; versions seen by one reader in successive iterators
 // must not go backwards; at the end the store must hold every writer's last commit.
